@@ -1,2 +1,243 @@
-(* C10 — stub, replaced below *)
-From Regal Require Import Model.Exit Model.Reporters.
+(* C10 — exit code and every output format faithfully reflect the report.
+   Only statements here; proofs live in Proofs/Exit.v and Proofs/Reporters.v.
+
+   Models: Model/Exit.v = RunE of cmd/lint.go (tally against --fail-level), cmd/exit.go, main.go.
+   Model/Reporters.v = every Publish of pkg/reporter/reporter.go as a function from the report
+   (Model/ReportData.v = pkg/report/report.go) to the records of the fields that format carries;
+   [<fmt>_keys] reads (file,row,col,rule,level) back from such a document the way a consumer would
+   ([parse_loc] for "file:row:col" strings).  [report_keys r] is that tuple for every violation of r.
+   Domain predicates ([files_without_colon], [levels_error_or_warning], [positions_well_formed],
+   [xml_clean_keys]) are defined at the end of Model/Reporters.v. *)
+From Coq Require Import List NArith Permutation.
+From Regal Require Import Model.ReportData Model.Exit Model.Reporters Proofs.Exit Proofs.Reporters.
+Import ListNotations.
+Local Open Scope N_scope.
+
+(* ---------------------------------------------------------------- exit status *)
+
+(* 1 iff linting itself failed; otherwise 3 iff an error-level violation was found, 2 iff the fail
+   level is "warning" and only warnings were found, 0 iff nothing at or above the fail level. *)
+Theorem c10_exit_code_spec :
+  forall (fail_level : str) (res : lint_result),
+  fail_level = L_ERROR \/ fail_level = L_WARNING ->
+  (exit_code fail_level res = 1 <-> res = LintFailed) /\
+  (forall r, res = LintDone r ->
+     (exit_code fail_level res = 3 <-> has_level L_ERROR r) /\
+     (exit_code fail_level res = 2 <->
+        fail_level = L_WARNING /\ ~ has_level L_ERROR r /\ has_level L_WARNING r) /\
+     (exit_code fail_level res = 0 <->
+        ~ has_level L_ERROR r /\ (fail_level = L_WARNING -> ~ has_level L_WARNING r))).
+Proof. exact exit_code_spec_proof. Qed.
+Print Assumptions c10_exit_code_spec.
+
+(* what the code does outside the property's domain: any other --fail-level never fails the command *)
+Theorem c10_exit_code_unknown_fail_level :
+  forall fail_level r, fail_level <> L_ERROR -> fail_level <> L_WARNING ->
+  exit_code fail_level (LintDone r) = 0.
+Proof. exact exit_code_other_level. Qed.
+Print Assumptions c10_exit_code_unknown_fail_level.
+
+(* ---------------------------------------------------------------- pretty (festive = pretty) *)
+
+(* every violation once, in report order, with file, position, rule and level — for every cut
+   function of the Text row, with and without colour support *)
+Theorem c10_pretty_entries_exactly_once :
+  forall (nocolor : bool) (r : report),
+  files_without_colon r ->
+  (nocolor = false -> levels_error_or_warning r) ->
+  pretty_keys (pretty nocolor r) = report_keys r.
+Proof. intros nocolor r. exact (pretty_entries_proof pretty_text nocolor r). Qed.
+Print Assumptions c10_pretty_entries_exactly_once.
+
+(* with colours the level is only the colour of the description: any level that is not
+   "warning" prints red, so a third level cannot be read back *)
+Theorem c10_pretty_colour_other_level_refuted :
+  exists r, files_without_colon r /\ pretty_keys (pretty false r) <> report_keys r.
+Proof. exact pretty_colour_level_refuted. Qed.
+Print Assumptions c10_pretty_colour_other_level_refuted.
+
+(* "file:row:col" is ambiguous when the file name itself ends in ":digits:digits" *)
+Theorem c10_location_string_ambiguous_refuted :
+  exists l1 l2, (l_file l1, l_row l1, l_col l1) <> (l_file l2, l_row l2, l_col l2) /\
+                loc_string l1 = loc_string l2.
+Proof. exact loc_string_ambiguous_proof. Qed.
+Print Assumptions c10_location_string_ambiguous_refuted.
+
+(* the Text row: cutting a long line never produces invalid UTF-8 … *)
+Theorem c10_pretty_text_valid_utf8 :
+  forall t, utf8_valid t = true -> utf8_valid (pretty_text t) = true.
+Proof. exact pretty_text_valid_proof. Qed.
+Print Assumptions c10_pretty_text_valid_utf8.
+
+(* … and shows a prefix of the first 117 bytes *)
+Theorem c10_pretty_text_cut_is_prefix :
+  forall t, exists rest, firstn TEXT_CUT t = cut_at_rune t TEXT_CUT ++ rest.
+Proof. intros t. exact (cut_at_rune_prefix t TEXT_CUT). Qed.
+Print Assumptions c10_pretty_text_cut_is_prefix.
+
+(* backing up to a rune start loses at most 3 of the 117 bytes *)
+Theorem c10_pretty_text_cut_bounds :
+  forall t, utf8_valid t = true -> (TEXT_CUT < length t)%nat ->
+  (TEXT_CUT <= length (cut_at_rune t TEXT_CUT) + 3)%nat /\ (length (cut_at_rune t TEXT_CUT) <= TEXT_CUT)%nat.
+Proof. intros t. exact (cut_at_rune_bounds t TEXT_CUT). Qed.
+Print Assumptions c10_pretty_text_cut_bounds.
+
+(* regression witness: the byte cut of the pinned commit split a two-byte character
+   (fixed in /repo by commit ef39a79) *)
+Theorem c10_pretty_text_valid_utf8_pinned_refuted :
+  exists t, utf8_valid t = true /\ utf8_valid (pretty_text_pinned t) = false /\
+            utf8_valid (pretty_text t) = true.
+Proof. exact pretty_text_pinned_refuted_proof. Qed.
+Print Assumptions c10_pretty_text_valid_utf8_pinned_refuted.
+
+(* ---------------------------------------------------------------- compact *)
+
+(* the compact table has a Location and a Description column only: rule and level are not
+   presented at all (open finding) … *)
+Theorem c10_compact_entries_exactly_once_refuted :
+  exists r1 r2, compact r1 = compact r2 /\ report_keys r1 <> report_keys r2.
+Proof. exact compact_rule_level_refuted. Qed.
+Print Assumptions c10_compact_entries_exactly_once_refuted.
+
+(* … file and position of every violation are, once, in report order *)
+Theorem c10_compact_entries_exactly_once_partial :
+  forall r, files_without_colon r -> compact_keys (compact r) = map pos_only (report_keys r).
+Proof. exact compact_positions_proof. Qed.
+Print Assumptions c10_compact_entries_exactly_once_partial.
+
+(* ---------------------------------------------------------------- github *)
+
+(* workflow commands carry level, file, line, col; the rule is in the table row of the same index *)
+Theorem c10_github_entries_exactly_once :
+  forall (nocolor : bool) (r : report), github_keys (github nocolor r) = report_keys r.
+Proof. intros nocolor r. exact (github_entries_proof pretty_text nocolor r). Qed.
+Print Assumptions c10_github_entries_exactly_once.
+
+Theorem c10_github_table_entries_exactly_once :
+  forall (nocolor : bool) (r : report),
+  files_without_colon r -> (nocolor = false -> levels_error_or_warning r) ->
+  pretty_keys (gd_pretty (github nocolor r)) = report_keys r.
+Proof. intros nocolor r. exact (github_table_proof pretty_text nocolor r). Qed.
+Print Assumptions c10_github_table_entries_exactly_once.
+
+(* byte level: the command lines regal writes are read back by the GitHub Actions runner's parser
+   ([gh_parse_command] = ActionCommand.TryParseV2) as exactly the annotations above, whatever bytes the
+   file name and the message contain *)
+Theorem c10_github_command_roundtrip :
+  forall a, gh_wf a -> gh_parse_command (gh_command_line a) = Some a.
+Proof. exact gh_parse_render. Qed.
+Print Assumptions c10_github_command_roundtrip.
+
+Theorem c10_github_lines_parse_back :
+  forall nocolor r,
+  (forall v, In v (r_violations r) -> gh_wf (gh_annotation_of v)) ->
+  map gh_parse_command (gd_lines (github nocolor r)) = map Some (gd_annotations (github nocolor r)).
+Proof. intros nocolor r. exact (github_lines_parse pretty_text nocolor r). Qed.
+Print Assumptions c10_github_lines_parse_back.
+
+(* regression witness: without escaping, file "a,b" is read as file "a" (fixed in /repo by commit 6b7e728) *)
+Theorem c10_github_command_roundtrip_pinned_refuted :
+  exists a, gh_wf a /\ gh_parse_command (gh_command_line_pinned a) <> Some a /\
+            gh_parse_command (gh_command_line a) = Some a.
+Proof. exact gh_parse_render_pinned_refuted. Qed.
+Print Assumptions c10_github_command_roundtrip_pinned_refuted.
+
+(* ---------------------------------------------------------------- sarif *)
+
+Theorem c10_sarif_entries_exactly_once :
+  forall r, positions_well_formed r -> sarif_keys (sarif r) = report_keys r.
+Proof. exact sarif_entries_proof. Qed.
+Print Assumptions c10_sarif_entries_exactly_once.
+
+(* every notice whose severity is not "none" is an informational result, once, in order *)
+Theorem c10_sarif_notices_exactly_once :
+  forall r, sarif_notice_titles (sarif r) = reported_notice_titles r.
+Proof. exact sarif_notices_proof. Qed.
+Print Assumptions c10_sarif_notices_exactly_once.
+
+(* outside the domain: a row with column 0 loses the row (region only when both are positive) *)
+Theorem c10_sarif_position_without_column_refuted :
+  exists r, sarif_keys (sarif r) <> report_keys r.
+Proof. exact sarif_position_refuted. Qed.
+Print Assumptions c10_sarif_position_without_column_refuted.
+
+(* ---------------------------------------------------------------- junit *)
+
+(* one suite per file: the test cases of all suites are the violations of the report, each once *)
+Theorem c10_junit_entries_exactly_once :
+  forall r, files_without_colon r -> xml_clean_keys r ->
+  Permutation (junit_keys (junit r)) (report_keys r).
+Proof. exact junit_entries_proof. Qed.
+Print Assumptions c10_junit_entries_exactly_once.
+
+(* the tests= and failures= attributes count the violations; no file has two suites *)
+Theorem c10_junit_counts :
+  forall r,
+  jd_tests (junit r) = N.of_nat (length (r_violations r)) /\
+  jd_failures (junit r) = N.of_nat (length (r_violations r)) /\
+  NoDup (junit_files (map file_of (r_violations r))).
+Proof. exact junit_counts_proof. Qed.
+Print Assumptions c10_junit_counts.
+
+(* regression witness: at the pinned commit two violations in one file gave two suites with two test
+   cases each (fixed in /repo by commit 669b4f4) *)
+Theorem c10_junit_entries_exactly_once_pinned_refuted :
+  exists r, files_without_colon r /\ xml_clean_keys r /\
+            ~ Permutation (junit_keys (junit_pinned r)) (report_keys r) /\
+            length (junit_keys (junit_pinned r)) = 4%nat /\ length (report_keys r) = 2%nat.
+Proof. exact junit_pinned_refuted_proof. Qed.
+Print Assumptions c10_junit_entries_exactly_once_pinned_refuted.
+
+(* ---------------------------------------------------------------- json *)
+
+(* field-level round trip through the struct tags: only the fields tagged json:"-" are reset *)
+Theorem c10_json_roundtrip :
+  forall r, dec_report (enc_report r) = Some (erase_report r).
+Proof. exact json_roundtrip_proof. Qed.
+Print Assumptions c10_json_roundtrip.
+
+Theorem c10_json_entries_exactly_once :
+  forall r, exists r', dec_report (enc_report r) = Some r' /\ report_keys r' = report_keys r.
+Proof. exact json_entries_proof. Qed.
+Print Assumptions c10_json_entries_exactly_once.
+
+(* ---------------------------------------------------------------- non-vacuity *)
+From Coq Require Import String.
+Local Open Scope string_scope.
+Local Open Scope N_scope.
+Local Open Scope list_scope.
+
+Definition ex_report : report :=
+  mk_report [mk_violation (lit "opa-fmt") L_ERROR (lit "a.rego") 1 1;
+             mk_violation (lit "line-length") L_WARNING (lit "b.rego") 7 121;
+             mk_violation (lit "todo-comment") L_WARNING (lit "a.rego") 3 1;
+             mk_violation (lit "unresolved-import") L_ERROR (lit "a.rego") 0 0].
+
+Example c10_hypotheses_satisfiable :
+  files_without_colon ex_report /\ levels_error_or_warning ex_report /\
+  positions_well_formed ex_report /\ xml_clean_keys ex_report /\
+  List.length (report_keys ex_report) = 4%nat /\
+  junit_keys (junit ex_report) <> report_keys ex_report (* grouped by file: a real permutation *) /\
+  pretty_keys (pretty false ex_report) = report_keys ex_report.
+Proof.
+  split; [|split; [|split; [|split; [|split; [|split]]]]].
+  - intros v [<-|[<-|[<-|[<-|[]]]]]; vm_compute; intuition discriminate.
+  - intros v [<-|[<-|[<-|[<-|[]]]]]; vm_compute; auto.
+  - intros v [<-|[<-|[<-|[<-|[]]]]]; vm_compute; intuition (try discriminate; auto).
+  - intros v [<-|[<-|[<-|[<-|[]]]]]; vm_compute; auto.
+  - reflexivity.
+  - vm_compute. discriminate.
+  - vm_compute. reflexivity.
+Qed.
+
+Example c10_exit_codes :
+  exit_code L_ERROR (LintDone ex_report) = 3 /\
+  exit_code L_WARNING (LintDone (mk_report [mk_violation (lit "t") L_WARNING (lit "a") 1 1])) = 2 /\
+  exit_code L_ERROR (LintDone (mk_report [mk_violation (lit "t") L_WARNING (lit "a") 1 1])) = 0 /\
+  exit_code L_WARNING LintFailed = 1.
+Proof. repeat split. Qed.
+
+Example c10_cut_example :
+  pretty_text (flat_map (fun _ => [195; 169]) (seq 0 59) ++ [97; 98])%list =
+  (flat_map (fun _ => [195; 169]) (seq 0 58) ++ ELLIPSIS)%list.
+Proof. vm_compute. reflexivity. Qed.
